@@ -90,6 +90,11 @@ def shower_job(job):
         alt[j] = a
     if n > 6:
         ln[6], alt[6] = 0.0, 0.0          # decay exactly at the surface (u = 1)
+    if n > 9:
+        # out of range BELOW: whatever the other inputs of a masked-out row are (grazing angle, arbitrary length), its field is exactly 0
+        alt[7], beta[7], ln[7] = -0.5, 0.005, 1.0
+        alt[8], ln[8] = -1e-13, 2.0
+        alt[9], beta[9], ln[9] = -3.0, 1e-9, 0.5
     r = cfg.detector.radio
     band = (r.low_frequency, r.high_frequency)
     h, N, gain = cfg.detector.initial_position.altitude, r.nantennas, r.gain
